@@ -33,7 +33,7 @@
 (***************************************************************************)
 EXTENDS C17Defs
 
-CONSTANTS N,           \* widths 1..N
+CONSTANTS Widths,      \* set of circuit widths / operator sizes explored
           MaxLen,      \* circuits of at most MaxLen gates
           MinLen,      \* export / conversion only of objects with at least MinLen gates / terms (steers -simulate)
           Toks,        \* parameter tokens offered to circuits
@@ -47,6 +47,10 @@ CONSTANTS N,           \* widths 1..N
           Emit         \* BOOLEAN: print terminal transitions
 
 \* named sets for the configuration files
+W12       == 1..2
+W123      == 1..3
+WWide     == {9, 10, 11, 12, 20, 101}
+WWide2    == {12, 101}
 TokAll    == 0..9
 TokSmall  == {1, 3}            \* the driver maps 1 and 3 to values that differ by exactly 2 pi
 TokOne    == {4}
@@ -59,6 +63,7 @@ FmtAll    == {"ionq", "projectq"}
 FmtIonq   == {"ionq"}
 FmtPq     == {"projectq"}
 FmtQasm   == {"openqasm"}
+FmtAll3   == {"ionq", "projectq", "openqasm"}
 OpFmtAll  == {"cirq", "openfermion"}
 KCircuit  == {"circuit"}
 KGate     == {"gate"}
@@ -68,7 +73,11 @@ KAll      == {"circuit", "gate", "op"}
 VARIABLES kind, fmt, n, obj, status, doc, out, style
 vars == <<kind, fmt, n, obj, status, doc, out, style>>
 
-Q(w) == 0..(w - 1)
+\* qubits offered to the gate alphabet: every qubit of a small register; on a WIDE register (multi-digit indices:
+\* a classic parsing boundary - single \\d regexes, string sorting, string max) a few low qubits, the indices around
+\* ten, and the two highest ones, so that circuits with many idle trailing qubits (gates on 0, 2 only) and circuits
+\* that touch the last qubit (targets and controls with 2-3 digits) are both generated
+Q(w) == IF w <= 3 THEN 0..(w - 1) ELSE {0, 2, 9, 10, 11, w - 2, w - 1} \cap (0..(w - 1))
 
 CtrlSeqs(others) ==
   { <<a>> : a \in others }
@@ -89,7 +98,7 @@ NilCirc == [n |-> 0, gates |-> <<>>, op |-> OpZero]
 
 Init == /\ kind \in Kinds
         /\ fmt \in (IF kind = "circuit" THEN Fmts ELSE IF kind = "op" THEN OpFmts ELSE {"repr"})
-        /\ n \in 1..N
+        /\ n \in Widths
         /\ style \in (IF kind = "gate" THEN {"list", "int"} ELSE {"list"})
         /\ obj = <<>>
         /\ status = "build"
